@@ -448,6 +448,9 @@ func c06TagLayouts() *core.Space {
 		{"x.c.m", map[string]int{"k": 18}},
 		{"arr", [2]inner{{D: 19}, {S: "t"}}},
 		{"arr.1.d", 20},
+		// lists without entries next to dotted siblings below their name
+		{"paths", []string{}},
+		{"x.l", []inner(nil)},
 	}
 	// settings written by a spec (to exclude layouts defining one setting twice)
 	defines := func(sp spec) []string {
